@@ -71,6 +71,10 @@ def apply_variant(sources: Dict[str, str], v: dict) -> Optional[Dict[str, str]]:
         from selftest.transforms import hoist_module
 
         return {k: hoist_module(t) for k, t in sources.items()}
+    if v.get("global") in ("rename-even", "rename-odd"):
+        from selftest.transforms import rename_module
+
+        return {k: rename_module(t, 0 if v["global"] == "rename-even" else 1) for k, t in sources.items()}
     if v.get("global") == "keywordize":
         from selftest.transforms import keywordize_module
 
@@ -168,6 +172,9 @@ def run_for(prop: str, seed: int = 0, jobs: int = 16) -> dict:
                      "note": "every comparison written the other way round (a < b -> b > a, a == b -> b == a)"})
     variants.append({"property": prop, "id": "%s-flip-else" % prop, "kind": "silent", "rule": None, "edits": [], "global": "flip-else",
                      "note": "every if/else with a plain else block written with the negated test and the arms swapped"})
+    for par in ("even", "odd"):
+        variants.append({"property": prop, "id": "%s-rename-locals-%s-functions" % (prop, par), "kind": "silent", "rule": None, "edits": [], "global": "rename-%s" % par,
+                         "note": "function-local variables renamed in every other function only (one-sided for sibling implementations)"})
     baseline = violations_of(prop, sources)
     # the self-test presupposes a tree on which the rules are silent (known findings aside); otherwise a rule that
     # raises a false alarm on the unmodified tree would hide behind the baseline
